@@ -232,7 +232,8 @@ def valid_tokens(rng, pop):
     return prog, [str(t) for t in render.tokens(prog, rng)]
 
 
-PROFILE = gen.profile(len=(3, 18), depth=3)
+PROFILE = gen.profile(len=(3, 18), depth=3, nested_defs=0.15,
+                      w={'routine': 5, 'call': 8})
 
 
 def class_b(rng, toks):
@@ -262,13 +263,35 @@ UNDEF = 'zz_undefined_9'
 def class_c(rng, prog, toks):
     """returns (text, rule) with exactly one documented rule broken"""
     toks = list(toks)
-    rule = rng.choice(['break-outside-loop', 'assign-to-macro',
+    rule = rng.choice(['break-outside-loop', 'break-in-nested-routine',
+                       'out-of-scope-name',
+                       'assign-to-macro',
                        'redefine-macro', 'undefined-name', 'nested-routine',
                        'missing-end', 'unbalanced', 'bad-time-pattern'])
     base = ' '.join(toks)
     if rule == 'break-outside-loop':
         pos = rng.choice(['end', 'start'])
         return ('break ' + base) if pos == 'start' else (base + ' break'), rule
+    if rule == 'out-of-scope-name':
+        # a parameter or routine-local name used after its routine has ended
+        names = out_of_scope_names(prog)
+        if not names:
+            return base + ' define zz_f with zz_p begin assign zz_q zz_p end ' \
+                + rng.choice(['print zz_p', 'hue zz_q', 'repeat zz_p print 1',
+                              'set "Strip" zone zz_p']), rule
+        nme = rng.choice(sorted(names))
+        return base + ' ' + rng.choice(
+            ['print {}', 'hue {}', 'assign zz_v {{ {} + 1 }}',
+             'repeat {} begin print 1 end', 'set "Strip" zone {}',
+             'if {{ {} > 1 }} print 1']).format(nme), rule
+    if rule == 'break-in-nested-routine':
+        # a routine body is not inside the loop its definition stands in
+        loop = rng.choice(['repeat 2', 'repeat while { 1 > 2 }',
+                           'repeat with zz_i from 1 to 2', 'repeat all as zz_l'])
+        body = rng.choice(['break', 'begin print 1 break end',
+                           'if { 1 } break'])
+        return base + ' {} begin define zz_brk {} print 2 end'.format(
+            loop, body), rule
     if rule == 'assign-to-macro':
         return 'define zz_m 5 ' + base + ' assign zz_m 6', rule
     if rule == 'redefine-macro':
@@ -306,6 +329,37 @@ def class_c(rng, prog, toks):
     bad = rng.choice(['12:8*', '25:00', '24:00', '**:08', '12:5', '*', '1:60',
                       '3*:00', '12:', ':30', '1:2:3', '8:0a', '99:99', '*:6*'])
     return base + ' time at ' + bad + ' wait', rule
+
+
+def out_of_scope_names(prog):
+    """parameters and routine-local names that are not also defined at the
+    top level of the program (so they are undefined after the routine)"""
+    top, inner = set(), set()
+
+    def walk(node, in_routine):
+        if isinstance(node, list):
+            if node and node[0] == 'routine':
+                inner.update(node[2])
+                walk(node[3], True)
+                top.add(node[1])
+                return
+            if node and node[0] == 'assign' and isinstance(node[1], str):
+                (inner if in_routine else top).add(node[1])
+            if node and node[0] == 'define':
+                top.add(node[1])
+            for x in node:
+                walk(x, in_routine)
+        elif isinstance(node, dict):
+            for k in ('var', 'lvar'):
+                if isinstance(node.get(k), str):
+                    (inner if in_routine else top).add(node[k])
+            w = node.get('with')
+            if isinstance(w, list) and len(w) > 1:
+                (inner if in_routine else top).add(w[1])
+            for x in node.values():
+                walk(x, in_routine)
+    walk(prog, False)
+    return inner - top
 
 
 def class_d(rng):
